@@ -43,7 +43,8 @@ def _dispatch(ctx) -> None:
             for pre in ("_start_of_", "_end_of_"):
                 ctx.ob("DISPATCH.exhaustive", f"{cls}.{pre}{u}", core.resolve_method(cls, pre + u) is not None,
                        f"'{u}' is a valid unit of {cls} but {pre}{u} is not defined (getattr would raise AttributeError)", m.rel)
-        own = {n for n in m.methods(cls) if n.startswith(("_start_of_", "_end_of_"))}
+        # modifiers are called as getattr(self, f"_start_of_{unit}")(): a method of that name taking further arguments is a helper
+        own = {n for n, f in m.methods(cls).items() if n.startswith(("_start_of_", "_end_of_")) and len(core.params(f)) == 0}
         for n in sorted(own):
             u = n.split("_of_", 1)[1]
             ctx.ob("DISPATCH.listed", f"{cls}.{n}", u in units, f"{n} exists but '{u}' is not in {cls}._MODIFIERS_VALID_UNITS", m.rel,
@@ -177,7 +178,7 @@ def _week(ctx) -> None:
 SMALL = {"second", "minute", "hour"}
 
 
-def _fold_tabulate(ctx, m, q: str) -> bool | None:
+def _fold_tabulate(ctx, m, q: str) -> bool | None | str:
     """start_of()/end_of() dispatchers decided on abstract boundary scenarios: the body is run by the checker's interpreter
     on stub values.  A helper `_start_of_<unit>` called on a receiver with fold f yields, for the boundary wall time W:
     normal -> (W, offset O); skipped -> W+gap for f=1 (forward), W-gap for f=0 (backward); repeated -> W with the first
@@ -192,6 +193,28 @@ def _fold_tabulate(ctx, m, q: str) -> bool | None:
         units = list(core.fold(m.assign("_MODIFIERS_VALID_UNITS", "DateTime"), m, "DateTime"))
     except Exception:       # noqa: BLE001
         return None
+    # premise of the scenario model: a `_start_of_<unit>` / `_end_of_<unit>` helper computes wall-clock fields and leaves the
+    # resolution to set()/create() with the fold the receiver carries - it neither reads nor chooses a fold / offset itself
+    # (transitively through private helpers).  Otherwise the model below does not describe the helpers: not decided here.
+    meths = m.methods("DateTime")
+    ZONE_WORDS = {"fold", "utcoffset", "tz", "tzinfo", "timezone", "dst", "convert", "in_timezone", "in_tz", "astimezone"}
+    seen_h: set[str] = set()
+    work = [f"{'_start_of_' if start else '_end_of_'}{u}" for u in units]
+    while work:
+        h = work.pop()
+        if h in seen_h or h not in meths:
+            continue
+        seen_h.add(h)
+        for n_ in core.walk_fn(meths[h]):
+            word = n_.attr if isinstance(n_, ast.Attribute) else n_.arg if isinstance(n_, ast.keyword) else None
+            if word in ZONE_WORDS:
+                ctx.unverified("FOLD.tabulated", f"DateTime.{q}",
+                               f"helper DateTime.{h} handles `{word}` itself: the scenario model (helpers leave the resolution of the boundary "
+                               f"to the fold of the receiver) does not describe it", m.loc(n_))
+                return "nomodel"
+            if isinstance(n_, ast.Attribute) and isinstance(n_.value, ast.Name) and n_.value.id == "self" and n_.attr.startswith("_") \
+                    and not n_.attr.startswith("__"):
+                work.append(n_.attr)
     W, O1, O2 = 1000, 100, 200
 
     def value(kind, wall, off, fold, ambiguous):
@@ -250,6 +273,8 @@ def _fold_tabulate(ctx, m, q: str) -> bool | None:
 def _fold_flow(ctx) -> None:
     m = pmod("datetime")
     tabs = {q: _fold_tabulate(ctx, m, q) for q in ("start_of", "end_of")}
+    if "nomodel" in tabs.values():
+        return          # the syntactic rules below rest on the same premise about the helpers
     if all(tabs.values()):
         # both dispatchers are right on every scenario: their shape is not a property
         setf = m.func("DateTime.set")
